@@ -198,6 +198,10 @@ partial def loop (h out : IO.FS.Stream) (s : Sess) : IO Unit := do
     | none =>
       out.putStrLn "bad-op"
       loop h out s
+  | ["settime", _] =>
+    -- the clock is outside the model
+    out.putStrLn "ok"
+    loop h out s
   | ["ans", flag] =>
     out.putStrLn "ok"
     loop h out { s with ctx := { s.ctx with saveAns := flag == "on" } }
